@@ -58,6 +58,8 @@ def guard_rem_positive(an, st, x_norm, align_norm):
 def run(ctx, rep):
     F = ctx.facts()
     prov.set_program(program(F))
+    from ._common import iterators_only_next
+    iterators_only_next(F, rep, "iterator", {"note::NoteIterator"}, 1)
     fn = F.fn("note::Note::parse_at")
     if fn is None:
         rep.bad("note", "Note::parse_at", "src/note.rs", "anchor missing: Note::parse_at")
@@ -78,6 +80,25 @@ def run(ctx, rep):
     if paths is None:
         rep.bad("note", "Note::parse_at", w, "UNRECOGNISED: Note::parse_at is not loop-free / has too many paths")
         return
+    # completeness: a record is refused only because it does not fit / cannot be decoded (header or typed content unreadable, a size that
+    # does not convert or overflows, name / descriptor range outside the data) or the alignment is 0 - never on a further condition
+    def fmt_cause(c):
+        k = c[0]
+        if k in ("conv", "overflow", "parse", "slice", "read"):
+            return True
+        if k == "explicit":
+            return c[1] == "UnexpectedAlignment"
+        if k == "via":
+            return all(fmt_cause(x) for x in c[2])
+        return False
+    stray = []
+    n_causes = 0
+    for c, t_, st_ in prov.failure_causes(an):
+        n_causes += 1
+        if not fmt_cause(c):
+            stray.append("%s %s" % (c[0], [show(x)[:80] if isinstance(x, tuple) else x for x in c[1:3]]))
+    rep.require(not stray, "note", "refusals", w, "%d error outcomes: unreadable header / typed content, size conversion or overflow, range outside the data, align == 0" % n_causes,
+                "Note::parse_at refuses a record for a reason the note format does not give (%s): a whole record ends the iteration early" % "; ".join(stray)[:300])
     p4lv = (("M", T.param(4)), ())
     nm_term = None
     n_ok = 0
